@@ -68,6 +68,9 @@ def install(w):
         if not args:
             return w.const("")
         (x,) = args
+        if isinstance(x.ty, type) and issubclass(x.ty, BaseException):
+            # str(exception) is its message (kept in $exc_str by the model of the raising call)
+            return Val(st.arr("$exc_str")[ex.as_ref(st, x, node)], str)
         return Val(mks(ex.str_of(st, x, node)), str)
 
     @reg(builtins.bool)
